@@ -30,7 +30,7 @@ func runC18(c *Ctx) {
 	opts := paramOf(f, 0)
 	_ = opts
 	succ := successReturns(f, 1)
-	c.obF("R18.0", f, "success-return", len(succ) >= 1, "TLSClientAuth has a success return (cfg, nil)", "no return with a nil error found")
+	c.obRF("R18.0", f, "success-return", len(succ) >= 1, "TLSClientAuth has a success return (cfg, nil)", "no return with a nil error found")
 	optField := func(field string) VPred { return vFieldLoadO(tlsOptsT, field) }
 
 	// R18.1: MinVersion on every tls.Config allocated by library code
@@ -155,7 +155,7 @@ func runC18(c *Ctx) {
 				"a path reaches `return cfg, nil` with ServerName set and the option value still in place")
 		}
 	}
-	c.obF("R18.2", f, "option-store-exists", len(optStores) >= 1, "TLSClientAuth copies the InsecureSkipVerify option", fmt.Sprintf("false stores %d, option stores %d", len(falseStores), len(optStores)))
+	c.obRF("R18.2", f, "option-store-exists", len(optStores) >= 1, "TLSClientAuth copies the InsecureSkipVerify option", fmt.Sprintf("false stores %d, option stores %d", len(falseStores), len(optStores)))
 
 	// R18.3 pass-through fields
 	for _, fld := range []string{"VerifyPeerCertificate", "SessionTicketsDisabled", "ClientSessionCache"} {
@@ -290,7 +290,7 @@ func runC18(c *Ctx) {
 		ok, bad := allOrigins(st.Val, oCall(0, "rt/client.TLSClientAuth"))
 		c.obI("R18.5", st, "transport-config", ok, "TLSTransport installs the config returned by TLSClientAuth unchanged", "origin "+describeOrigin(bad))
 	}
-	c.obF("R18.5", tt, "transport-config-exists", len(fieldStoresAny(tt, "net/http.Transport", "TLSClientConfig")) == 1, "TLSTransport sets Transport.TLSClientConfig", "store not found")
+	c.obRF("R18.5", tt, "transport-config-exists", len(fieldStoresAny(tt, "net/http.Transport", "TLSClientConfig")) == 1, "TLSTransport sets Transport.TLSClientConfig", "store not found")
 	tc := p.Fn("rt/client.TLSClient")
 	checkErrorsReturned(c, "R18.5", tc, 1, nil)
 	for _, st := range fieldStoresAny(tc, "net/http.Client", "Transport") {
@@ -314,7 +314,7 @@ func runC18(c *Ctx) {
 		ok, bad := allOrigins(st.Val, oCall(0, "rt/client.TLSTransport"), ownTransport)
 		c.obI("R18.5", st, "client-transport", ok, "TLSClient installs the transport returned by TLSTransport (or one it builds around the config TLSClientAuth returned)", "origin "+describeOrigin(bad))
 	}
-	c.obF("R18.5", tc, "client-transport-exists", len(fieldStoresAny(tc, "net/http.Client", "Transport")) == 1, "TLSClient sets Client.Transport", "store not found")
+	c.obRF("R18.5", tc, "client-transport-exists", len(fieldStoresAny(tc, "net/http.Client", "Transport")) == 1, "TLSClient sets Client.Transport", "store not found")
 }
 
 // returnsValue: the return mentions v among its results (directly).
